@@ -12,6 +12,13 @@ OPEN = {'(': ')', '[': ']', '{': '}'}
 
 
 def run(chk):
+    interaction_stream(chk)
+    from orch import interact
+    inv = [('file', t) for t in interact.invalid_programs()]
+    ia, ib = run_both(chk, 'interactions-invalid', inv, robust=True)
+    for (m_, t_), l_ in zip(inv, ia):
+        if outcome(l_)[0] == 'ok':
+            chk.oracle_fail('unbalanced-accepted', m_, t_, 'accepted', 'rejected', 'a file with a surplus bracket (label / interface element at the end of a block) is accepted')
     rng = random.Random(chk.seed)
     n = 600 if chk.tier == 'quick' else 10000
     m = 4 if chk.tier == 'quick' else 16
